@@ -18,25 +18,33 @@ func init() { extractors["C20"] = extractC20 }
 type shaper struct {
 	c      *ctx
 	locals map[string]bool
+	tok    map[string]string // receiver -> recv, parameters -> p0.., named results -> r0.., of function literals a0.. / b0..
 	// names bound while printing applyDelay
 	recvName, boundName, errName string
 }
 
 func newShaper(c *ctx, fd *ast.FuncDecl) *shaper {
-	s := &shaper{c: c, locals: map[string]bool{}}
-	addFields := func(fl *ast.FieldList) {
+	s := &shaper{c: c, locals: map[string]bool{}, tok: map[string]string{}}
+	addFields := func(fl *ast.FieldList, prefix string) {
 		if fl == nil {
 			return
 		}
+		i := 0
 		for _, f := range fl.List {
 			for _, n := range f.Names {
 				s.locals[n.Name] = true
+				if prefix == "recv" {
+					s.tok[n.Name] = "recv"
+				} else if prefix != "" {
+					s.tok[n.Name] = fmt.Sprintf("%s%d", prefix, i)
+				}
+				i++
 			}
 		}
 	}
-	addFields(fd.Recv)
-	addFields(fd.Type.Params)
-	addFields(fd.Type.Results)
+	addFields(fd.Recv, "recv")
+	addFields(fd.Type.Params, "p")
+	addFields(fd.Type.Results, "r")
 	ast.Inspect(fd.Body, func(n ast.Node) bool {
 		switch x := n.(type) {
 		case *ast.AssignStmt:
@@ -56,8 +64,8 @@ func newShaper(c *ctx, fd *ast.FuncDecl) *shaper {
 				}
 			}
 		case *ast.FuncLit:
-			addFields(x.Type.Params)
-			addFields(x.Type.Results)
+			addFields(x.Type.Params, "a")
+			addFields(x.Type.Results, "b")
 		case *ast.ValueSpec:
 			for _, n := range x.Names {
 				s.locals[n.Name] = true
@@ -73,6 +81,9 @@ func (s *shaper) e(x ast.Expr) string {
 	case nil:
 		return ""
 	case *ast.Ident:
+		if t, ok := s.tok[v.Name]; ok {
+			return t
+		}
 		if s.locals[v.Name] {
 			return "_"
 		}
@@ -240,13 +251,13 @@ func countSub(xs []string, sub string) int {
 
 func (s *shaper) delayCond(x ast.Expr) (string, bool) {
 	switch s.e(x) {
-	case `(_.Metadata.Get(DelayedForKey)!="")`:
+	case `(p1.Metadata.Get(DelayedForKey)!="")`:
 		return ".metaForNonEmpty", true
-	case `(_.Context().Value(delayContextKey)!=nil)`:
+	case `(p1.Context().Value(delayContextKey)!=nil)`:
 		return ".ctxHasDelay", true
-	case `(_.config.DefaultDelayGenerator!=nil)`:
+	case `(recv.config.DefaultDelayGenerator!=nil)`:
 		return ".genNotNil", true
-	case `!_.config.AllowNoDelay`:
+	case `!recv.config.AllowNoDelay`:
 		return ".notAllowNoDelay", true
 	}
 	return "", false
@@ -339,6 +350,76 @@ func (c *ctx) delayBody(fd *ast.FuncDecl) ([]string, int) {
 	return out, unknown
 }
 
+// ---------------------------------------------------------------- metrics bodies as deep-embedded statement lists
+
+var mpubTop = map[string]string{
+	`if (len(p1)==0) {return recv.pub.Publish(p0)}`:                                   ".ifEmptyForward",
+	`_:=p1[0].Context()`:                                                              ".captureCtxFirst",
+	`_:=labelsFromCtx(_,publisherLabelKeys...)`:                                       ".labelsFromCtx",
+	`if (_[labelKeyPublisherName]=="") {_[labelKeyPublisherName]=recv.publisherName}`: ".defaultPublisherName",
+	`if (_[labelKeyHandlerName]=="") {_[labelKeyHandlerName]=labelValueNoHandler}`:    ".defaultHandlerName",
+	`_:=time.Now()`: ".start",
+	`for range p1 {_.SetContext(setPublishObservedToCtx(_.Context()))}`: ".markAll",
+	`return recv.pub.Publish(p0,p1...)`:                                 ".forward",
+}
+
+var mpubDefer = map[string]string{
+	`if publishAlreadyObserved(_) {return}`:                                ".ifMarkedReturn",
+	`if (r0!=nil) {_[labelSuccess]="false"} else {_[labelSuccess]="true"}`: ".labelSuccessByErr",
+	`recv.publishTimeSeconds.With(_).Observe(time.Since(_).Seconds())`:     ".observe",
+}
+
+var mhdlTop = map[string]string{
+	`_:=time.Now()`:   ".now",
+	`_:=a0.Context()`: ".captureCtx",
+	`_:=prometheus.Labels{labelKeyHandlerName:message.HandlerNameFromCtx(_)}`: ".labelsInit",
+	`_:=true`:       ".flagTrue",
+	`b0,b1=p0(a0)`:  ".callAssign",
+	`_=false`:       ".flagFalse",
+	`return b0,b1`:  ".returnResults",
+	`return p0(a0)`: ".returnCall",
+}
+
+var mhdlDefer = map[string]string{
+	`if ((b1!=nil)||_) {_[labelSuccess]="false"} else {_[labelSuccess]="true"}`: ".labelByErrOrFlag",
+	`if (b1!=nil) {_[labelSuccess]="false"} else {_[labelSuccess]="true"}`:      ".labelByErrOnly",
+	`recv.handlerExecutionTimeSeconds.With(_).Observe(time.Since(_).Seconds())`: ".observe",
+}
+
+// embed prints a statement list; a `defer func() {…}()` becomes `.deferFn […]`; anything else not in the tables `.unknown`.
+func (s *shaper) embed(list []ast.Stmt, top, def map[string]string) ([]string, int) {
+	var out []string
+	unknown := 0
+	for _, st := range list {
+		sh := s.st(st)
+		if sh == "" {
+			continue
+		}
+		if d, ok := st.(*ast.DeferStmt); ok {
+			if fl, ok := d.Call.Fun.(*ast.FuncLit); ok && len(d.Call.Args) == 0 {
+				var body []string
+				for _, b := range fl.Body.List {
+					if t, ok := def[s.st(b)]; ok {
+						body = append(body, t)
+					} else {
+						body = append(body, ".unknown "+leanStr(s.c.src(b)))
+						unknown++
+					}
+				}
+				out = append(out, ".deferFn ["+strings.Join(body, ", ")+"]")
+				continue
+			}
+		}
+		if t, ok := top[sh]; ok {
+			out = append(out, t)
+		} else {
+			out = append(out, ".unknown "+leanStr(s.c.src(st)))
+			unknown++
+		}
+	}
+	return out, unknown
+}
+
 // ---------------------------------------------------------------- facts
 
 func extractC20(c *ctx) (Facts, error) {
@@ -383,9 +464,9 @@ func extractC20(c *ctx) (Facts, error) {
 		return ".other " + leanStr(sh)
 	}
 	fmt.Fprintf(&sb, "def delayPublishShape : PublishShape := %s\n\n", psh(dp,
-		"for range _ {_:=_.applyDelay(_,_[_]);if (_!=nil) {return _}};return _.pub.Publish(_,_...)", "applyDelay-return-on-error"))
+		"for range p1 {_:=recv.applyDelay(p0,p1[_]);if (_!=nil) {return _}};return recv.pub.Publish(p0,p1...)", "applyDelay-return-on-error"))
 	fmt.Fprintf(&sb, "def transformPublishShape : PublishShape := %s\n\n", psh(tp,
-		"for range _ {_.transform(_[_])};return _.Publisher.Publish(_,_...)", "transform"))
+		"for range p1 {recv.transform(p1[_])};return recv.Publisher.Publish(p0,p1...)", "transform"))
 	sb.WriteString("end Wm.GoDelay.Gen\n")
 	if err := c.writeLean("DelayBody.lean", sb.String()); err != nil {
 		fail(err)
@@ -418,15 +499,15 @@ func extractC20(c *ctx) (Facts, error) {
 	} else {
 		s := newShaper(c, fd)
 		fl := s.flat(fd.Body)
-		f["tsub_subscribe_error_returned"] = idx(fl, "if (_!=nil) {return nil,_}") == 1 && strings.HasPrefix(fl[0], "_,_:=_.sub.Subscribe(_,_)")
+		f["tsub_subscribe_error_returned"] = idx(fl, "if (_!=nil) {return nil,_}") == 1 && strings.HasPrefix(fl[0], "_,_:=recv.sub.Subscribe(p0,p1)")
 		pump := ""
 		for _, x := range fl {
-			if strings.HasPrefix(x, "for range _ {_.transform(_)") {
+			if strings.HasPrefix(x, "for range _ {recv.transform(_)") {
 				pump = x
 			}
 		}
 		f["tsub_pump_shape"] = pump
-		f["tsub_pump_closes_out_after_loop"] = ordered(idx(fl, "for range _ {_.transform(_)"), indexOf(fl, func(x string) bool { return x == "close(_)" }))
+		f["tsub_pump_closes_out_after_loop"] = ordered(idx(fl, "for range _ {recv.transform(_)"), indexOf(fl, func(x string) bool { return x == "close(_)" }))
 	}
 	f["tsub_close_shape"] = shape("message/decorator.go", "messageTransformSubscriberDecorator", "Close")
 
@@ -445,10 +526,10 @@ func extractC20(c *ctx) (Facts, error) {
 			f["mpub_first_statement"] = s.st(fd.Body.List[0])
 		}
 		f["mpub_order_ctx_defer_mark_forward"] = ordered(
-			idx(fl, "_:=_[0].Context()"),
+			idx(fl, "_:=p1[0].Context()"),
 			idx(fl, "defer func{"),
-			idx(fl, "for range _ {_.SetContext(setPublishObservedToCtx(_.Context()))}"),
-			indexOf(fl, func(x string) bool { return x == "return _.pub.Publish(_,_...)" }))
+			idx(fl, "for range p1 {_.SetContext(setPublishObservedToCtx(_.Context()))}"),
+			indexOf(fl, func(x string) bool { return x == "return recv.pub.Publish(p0,p1...)" }))
 		for _, st := range fd.Body.List {
 			if d, ok := st.(*ast.DeferStmt); ok {
 				if fl, ok := d.Call.Fun.(*ast.FuncLit); ok {
@@ -484,15 +565,15 @@ func extractC20(c *ctx) (Facts, error) {
 			top = append(top, s.st(st))
 		}
 		f["msub_goroutine_statements"] = goBody
-		f["msub_order_ctx_go_mark"] = ordered(idx(top, "_:=_.Context()"), indexOf(top, func(x string) bool { return x == "go" }),
-			idx(top, "_.SetContext(setSubscribeObservedToCtx(_.Context()))"))
+		f["msub_order_ctx_go_mark"] = ordered(idx(top, "_:=p0.Context()"), indexOf(top, func(x string) bool { return x == "go" }),
+			idx(top, "p0.SetContext(setSubscribeObservedToCtx(p0.Context()))"))
 		f["msub_inc_calls"] = countSub([]string{s.block(fd.Body)}, ".Inc()")
 	}
 	if fd, err := c.fn("components/metrics/builder.go", "PrometheusMetricsBuilder", "DecorateSubscriber"); err != nil {
 		fail(err)
 	} else {
 		fl := newShaper(c, fd).flat(fd.Body)
-		f["msub_is_transform_decorator_with_recordMetrics"] = idx(fl, "_.Subscriber,_=message.MessageTransformSubscriberDecorator(_.recordMetrics)(_)") >= 0
+		f["msub_is_transform_decorator_with_recordMetrics"] = idx(fl, "_.Subscriber,_=message.MessageTransformSubscriberDecorator(_.recordMetrics)(p0)") >= 0
 	}
 
 	// --- metrics handler middleware (repair of finding D4: panicked flag)
@@ -528,10 +609,47 @@ func extractC20(c *ctx) (Facts, error) {
 			f["mhdl_order_flag_defer_call_clear_return"] = ordered(
 				indexOf(top, func(x string) bool { return x == "_:=true" }),
 				indexOf(top, func(x string) bool { return x == "defer" }),
-				indexOf(top, func(x string) bool { return x == "_,_=_(_)" }),
+				indexOf(top, func(x string) bool { return x == "b0,b1=p0(a0)" }),
 				indexOf(top, func(x string) bool { return x == "_=false" }),
-				indexOf(top, func(x string) bool { return x == "return _,_" }))
+				indexOf(top, func(x string) bool { return x == "return b0,b1" }))
 			f["mhdl_observe_calls"] = countSub([]string{s.block(inner.Body)}, ".Observe(")
+		}
+	}
+
+	// --- deep-embedded bodies of the metrics publisher decorator and of the handler middleware (generated Lean)
+	{
+		var mb strings.Builder
+		mb.WriteString("/- GENERATED by harness/cmd/extract from components/metrics/{publisher,handler}.go on every run – do not edit -/\n")
+		mb.WriteString("import WmModel.GoMetrics\nnamespace Wm.GoMetrics.Gen\nopen Wm.GoMetrics\n\n")
+		pst, pu := []string{".unknown \"not found\""}, 1
+		if fd, err := c.fn("components/metrics/publisher.go", "PublisherPrometheusMetricsDecorator", "Publish"); err == nil {
+			named := fd.Type.Results != nil && len(fd.Type.Results.List) == 1 && len(fd.Type.Results.List[0].Names) == 1
+			if named {
+				pst, pu = newShaper(c, fd).embed(fd.Body.List, mpubTop, mpubDefer)
+			} else {
+				pst = []string{".unknown \"result is not a named error\""}
+			}
+		}
+		f["mpub_body_statements"] = len(pst)
+		f["mpub_body_unknown_statements"] = pu
+		fmt.Fprintf(&mb, "def metricsPublishBody : List PStmt := [\n  %s\n]\n\n", strings.Join(pst, ",\n  "))
+		hst, hu := []string{".unknown \"not found\""}, 1
+		if fd, err := c.fn("components/metrics/handler.go", "HandlerPrometheusMetricsMiddleware", "Middleware"); err == nil {
+			// the body must be exactly `return func(msg) (msgs, err) { … }`
+			if len(fd.Body.List) == 1 {
+				if rs, ok := fd.Body.List[0].(*ast.ReturnStmt); ok && len(rs.Results) == 1 {
+					if fl, ok := rs.Results[0].(*ast.FuncLit); ok {
+						hst, hu = newShaper(c, fd).embed(fl.Body.List, mhdlTop, mhdlDefer)
+					}
+				}
+			}
+		}
+		f["mhdl_body_statements"] = len(hst)
+		f["mhdl_body_unknown_statements"] = hu
+		fmt.Fprintf(&mb, "def handlerBody : List HStmt := [\n  %s\n]\n\n", strings.Join(hst, ",\n  "))
+		mb.WriteString("end Wm.GoMetrics.Gen\n")
+		if err := c.writeLean("MetricsBody.lean", mb.String()); err != nil {
+			fail(err)
 		}
 	}
 
